@@ -37,6 +37,7 @@ def run(facts, rep):
     d4_rejected(facts, rep)
     d5_wait(facts, rep)
     d6_reservation(facts, rep)
+    d5_inline_bodies(facts, rep)
 
 
 def d1_handlers(facts, rep):
@@ -487,3 +488,44 @@ def d6_reservation(facts, rep):
     if ni < 3:
         raise AnalysisBroken('D6: input_node copy-out sites found: %d (expected try_get, try_reserve, try_reserve_apply_body)' % ni)
     rep.floor('D6', 11, 'buffer operation kinds x node classes + input_node copy-out sites')
+
+
+
+# ---------------------------------------------------------------------------------------------------------------
+def d5_inline_bodies(facts, rep):
+    """"After cancellation or an exception no further body starts".  A body that runs in a graph task is covered by the
+    dispatcher (it calls cancel() instead of execute() for a cancelled group, C03-D1).  A `lightweight` body is run inline by
+    the sender's try_put_task, inside a task that is already running: nothing consults the cancellation state unless the
+    node code does.  Rule: outside task classes, a call of apply_body_bypass is dominated by a test of the group's
+    cancellation state (is_group_execution_cancelled / is_cancelled)."""
+    tcls = set()
+    for p_, cs in facts.classes.items():
+        for c in cs:
+            if p_ == 'tbb::detail::d1::task' or 'tbb::detail::d1::task' in c['allbases']:
+                tcls.add(p_)
+    CONSULT = ('is_group_execution_cancelled', 'is_cancelled', 'is_current_task_group_canceling')
+    sites = {}
+    for fn in facts.fns.values():
+        if 'flow_graph' not in fn.file or fn.cls in tcls:
+            continue
+        ab = calls_named(fn, ('apply_body_bypass',))
+        if not ab:
+            continue
+        cons = set(c[1] for c in calls_named(fn, CONSULT))
+
+        def consulted(a, truth):
+            return bool(fn.subtree(a) & cons)
+        ce = edges_where(fn, consulted)
+        for pos, sx, node, d in ab:
+            ok = bool(ce) and dominated_by_edges(fn, pos, ce)[0]
+            key = (fn.p, 'unlimited' if any(fn.nodes[x].get('k') == 'member' and fn.nodes[x].get('n') == 'my_max_concurrency' for b2 in fn.blocks.values()
+                                           for t2 in [b2.get('term')] if t2 and 'c' in t2 and dominated_by_edges(fn, pos, {(b2['id'], 0)})[0]
+                                           for x in fn.subtree(t2['c'])) else 'limited')
+            ent = sites.setdefault(key, [fn, True, node['ln']])
+            ent[1] = ent[1] and ok
+    if not sites:
+        raise AnalysisBroken('no inline apply_body_bypass call found (lightweight policy not instantiated?)')
+    for (pname, variant), (fn, ok, ln) in sorted(sites.items()):
+        rep.ob('D5', 'K4', fn, 'an inline (lightweight) body of %s [%s] starts only after the cancellation state was consulted' % (pname.split('::')[-2], variant), ok,
+               'the lightweight body is run inside the sender\'s task without looking at the group context: it starts after graph::cancel() / '
+               'after an exception cancelled the graph', ln=ln, key_extra='%s|%s' % (pname, variant))
